@@ -51,6 +51,28 @@ pub fn run(ctx: &Ctx) {
             }
         }
     }
+    // call histories: every sequence of setter calls up to the depth bound over the Python setter alphabet,
+    // on one astral + BMP + ASCII input; expected = the Rust builder driven by the same sequence
+    let hist_ops: Vec<(&str, Value)> = vec![
+        ("d", json!(null)), ("W", json!(null)), ("r", json!(null)), ("i", json!(null)), ("g", json!(null)), ("x", json!(null)), ("na", json!(null)), ("ne", json!(null)),
+        ("nane", json!(null)), ("e", json!(false)), ("e", json!(true)), ("minrep", json!(2)), ("minlen", json!(2)), ("build", json!(null)),
+    ];
+    let hist_input: Vec<String> = vec!["a\u{1f4a9}\u{1f4a9}\u{e9}1".to_string(), "A\u{10ffff} 1".to_string()];
+    let depth = if thorough { 4 } else { 3 };
+    let mut histories: Vec<Vec<usize>> = vec![vec![]];
+    let mut layer: Vec<Vec<usize>> = vec![vec![]];
+    for _ in 0..depth {
+        let mut next = vec![];
+        for h in &layer {
+            for o in 0..hist_ops.len() {
+                let mut n = h.clone();
+                n.push(o);
+                next.push(n);
+            }
+        }
+        histories.extend(next.iter().cloned());
+        layer = next;
+    }
     let cache = format!("{}/.cache", crate::ev::root());
     let _ = std::fs::create_dir_all(&cache);
     let cases_path = format!("{cache}/c14_cases_{}.jsonl", std::process::id());
@@ -61,7 +83,11 @@ pub fn run(ctx: &Ctx) {
         for (id, (t, c)) in cases.iter().enumerate() {
             writeln!(f, "{}", json!({"id": id, "test_cases": t, "flags": c.flag_names(), "minrep": c.minrep, "minlen": c.minlen})).unwrap();
         }
-        let mut id = cases.len();
+        for (k, h) in histories.iter().enumerate() {
+            let ops: Vec<Value> = h.iter().map(|o| json!([hist_ops[*o].0, hist_ops[*o].1])).collect();
+            writeln!(f, "{}", json!({"id": cases.len() + k, "test_cases": hist_input, "flags": [], "ops": ops})).unwrap();
+        }
+        let mut id = cases.len() + histories.len();
         for sp in [json!({"special": "empty_list"}), json!({"special": "empty_list_classmethod"}),
                    json!({"special": "minrep", "value": 0}), json!({"special": "minrep", "value": -1}), json!({"special": "minrep", "value": 3}),
                    json!({"special": "minlen", "value": 0}), json!({"special": "minlen", "value": -1}), json!({"special": "minlen", "value": 3})] {
@@ -84,9 +110,50 @@ pub fn run(ctx: &Ctx) {
     }
     let text = std::fs::read_to_string(&results_path).unwrap_or_default();
     let results: Vec<Value> = text.lines().filter_map(|l| serde_json::from_str(l).ok()).collect();
-    if results.len() != cases.len() + specials.len() {
-        return run.machinery_error(format!("python driver returned {} results for {} cases", results.len(), cases.len() + specials.len()));
+    if results.len() != cases.len() + histories.len() + specials.len() {
+        return run.machinery_error(format!("python driver returned {} results for {} cases", results.len(), cases.len() + histories.len() + specials.len()));
     }
+    // histories: drive the real Rust builder with the same call sequence
+    for (k, h) in histories.iter().enumerate() {
+        run.eval();
+        let r = &results[cases.len() + k];
+        let names: Vec<String> = h.iter().map(|o| format!("{}{}", hist_ops[*o].0, if hist_ops[*o].1.is_null() { String::new() } else { format!("({})", hist_ops[*o].1) })).collect();
+        let hi = hist_input.clone();
+        let hh = h.clone();
+        let ops = hist_ops.clone();
+        let lib = std::panic::catch_unwind(move || {
+            let mut b = grex::RegExpBuilder::from(&hi);
+            for o in hh {
+                match (ops[o].0, &ops[o].1) {
+                    ("d", _) => { b.with_conversion_of_digits(); }
+                    ("W", _) => { b.with_conversion_of_non_words(); }
+                    ("r", _) => { b.with_conversion_of_repetitions(); }
+                    ("i", _) => { b.with_case_insensitive_matching(); }
+                    ("g", _) => { b.with_capturing_groups(); }
+                    ("x", _) => { b.with_verbose_mode(); }
+                    ("na", _) => { b.without_start_anchor(); }
+                    ("ne", _) => { b.without_end_anchor(); }
+                    ("nane", _) => { b.without_anchors(); }
+                    ("e", v) => { b.with_escaping_of_non_ascii_chars(v.as_bool().unwrap()); }
+                    ("minrep", v) => { b.with_minimum_repetitions(v.as_u64().unwrap() as u32); }
+                    ("minlen", v) => { b.with_minimum_substring_length(v.as_u64().unwrap() as u32); }
+                    ("build", _) => { b.build(); }
+                    _ => unreachable!(),
+                }
+            }
+            b.build()
+        });
+        let Ok(lib) = lib else { continue };
+        run.mark_nontrivial(hash_case(&names, &Cfg::new(0)));
+        let expect = to_python(&lib);
+        let out = r["out"].as_str().unwrap_or("");
+        if r.get("error").is_some() || out != expect || r["out_again"].as_str() != Some(out) {
+            run.violation(viol("C14", "py", format!("python-history-differs last_op={}", names.last().cloned().unwrap_or_default()), &hist_input, &Cfg::new(0), out, json!({"history": names, "expected": expect, "library": lib, "error": r.get("error")})));
+        } else if run.want_sample() && h.len() == depth {
+            run.sample(json!({"history": names, "python": out}));
+        }
+    }
+    run.space(json!({"engine": "call histories on the real extension: every sequence of setter calls (14-symbol alphabet incl. escape(False/True), thresholds, build) up to the depth bound; expected = real Rust builder driven by the same sequence", "depth": depth, "histories": histories.len()}));
     for (id, (t, c)) in cases.iter().enumerate() {
         run.eval();
         if t.iter().any(|s| !s.is_ascii()) {
@@ -134,7 +201,7 @@ pub fn run(ctx: &Ctx) {
     ];
     for (k, sp) in specials.iter().enumerate() {
         run.eval();
-        let r = &results[cases.len() + k];
+        let r = &results[cases.len() + histories.len() + k];
         let kind = sp["special"].as_str().unwrap();
         let positive = sp.get("value").and_then(|v| v.as_i64()).map_or(false, |v| v > 0);
         let want_msg = msgs.iter().find(|(n, _)| *n == kind).unwrap().1;
